@@ -98,11 +98,12 @@ def to_DiGraph(program):
             for _, v in op['kwargs'].items():
                 if isinstance(v, RegRefTransform):
                     dependencies |= set(v.regrefs)
-        else:
-            op['args'] = []
-            op['kwargs'] = {}
+        # operations without arguments get empty ones in the graph only;
+        # the program that was passed in is left untouched
+        args = op.get('args', [])
+        kwargs = op.get('kwargs', {})
 
-        cmd = Command(name=op['op'], args=op['args'], kwargs=op['kwargs'], modes=tuple(op['modes']))
+        cmd = Command(name=op['op'], args=args, kwargs=kwargs, modes=tuple(op['modes']))
 
         for q in dependencies:
             # Add cmd to the grid to the end of the line r.ind.
